@@ -129,7 +129,8 @@ def _children_in_loop_form(cx, rule, what, f, others):
     names, reach = reach_table(m, f, push[0].b, classify)
     ok = names == ["on", "typ"] and {tuple(sorted(x)) for x in reach} == {(("on", True), ("typ", True))}
     extra = []
-    for g in deciding(m, f, push[0].b, mode="alias"):
+    from vlib.model import conditions_of
+    for g in conditions_of(m, f, push[0].b, mode="alias"):
         if g.neutral:
             continue
         r = g.root
